@@ -10,6 +10,7 @@ from __future__ import annotations
 import ast
 
 from ..flow import FlowAnalysis, has_event
+from ..sites import apply_fn, worker_fn
 from ..model import AnalysisError, FuncInfo, call_name, last_attr, names_in, unparse, walk_no_nested
 
 CTX = "codemodder.context.CodemodExecutionContext"
@@ -51,7 +52,7 @@ def rule_sequential(ctx, rep):
     threads = [n for n in walk_no_nested(ac.node) if isinstance(n, ast.Call) and (last_attr(n.func) in ("submit", "Thread", "start", "create_task", "ThreadPoolExecutor", "ProcessPoolExecutor"))]
     rep.check("R-SEQUENTIAL", ac.qname, ac.loc(threads[0]) if threads else ac.loc(), not threads, "no-concurrency-across-codemods",
               "apply_codemods starts concurrent work across codemods")
-    ap = ctx.prog.func(APPLY)
+    ap = apply_fn(ctx)
     r = ctx.resolver(ap)
     pools = [n for n in walk_no_nested(ap.node) if isinstance(n, ast.Call) and (r.callee_qname(n) or "").endswith("PoolExecutor")]
     pm = ctx.parents(ap)
@@ -109,7 +110,7 @@ def rule_state_keyed(ctx, rep):
                       f"per-codemod container `{cont}` is accessed with key `{kt}`, which is not this method's codemod-id parameter")
     # callers pass the id of the codemod at hand
     wanted = {
-        "process_results": ("codemodder.codemods.base_codemod.BaseCodemod._apply", "self.id"),
+        "process_results": (apply_fn(ctx).qname, "self.id"),
         "process_dependencies": ("codemodder.codemodder.apply_codemods", None),
         "log_changes": ("codemodder.codemodder.apply_codemods", None),
     }
@@ -238,7 +239,7 @@ def rule_fresh_filecontext(ctx, rep):
         "no FileContext is stored on self/context/module",
         min_instances=8,
     )
-    pf = ctx.prog.func("codemodder.codemods.base_codemod.BaseCodemod._process_file")
+    pf = worker_fn(ctx)
     r = ctx.resolver(pf)
     fcq = "codemodder.file_context.FileContext"
     ctor = [n for n in walk_no_nested(pf.node) if isinstance(n, ast.Call) and r.callee_qname(n) == fcq]
